@@ -540,36 +540,66 @@ func natAddr(s string, fam int) (a netip.Addr) {
 	return a
 }
 
-// geoCacheFinding exercises the known finding geoip-data-cache-coarser-than-database:
-// geoip.File.Data caches the location of an address for its whole /24 (IPv4) or
-// /56 (IPv6) block, while the databases may hold longer networks.  Two clients
-// of one block that the country database puts into different countries: the
-// second is located where the first is, and its upstream queries carry the
-// first one's country subnet.
-func geoCacheFinding(r *hlib.Result, rng *rand.Rand, n int) {
+// setBit returns a with bit i (0 = most significant) set.
+func setBit(a netip.Addr, i int) netip.Addr {
+	b := a.AsSlice()
+	b[i/8] |= 0x80 >> (i % 8)
+	out, _ := netip.AddrFromSlice(b)
+
+	return out
+}
+
+// geoCacheFinding exercises the granularity of geoip.File.Data's location cache
+// for EVERY position of the first bit in which two clients differ (below the
+// fixed first byte resp. first two bytes of the generated networks): the
+// country database puts the two halves lo and hi of a network into different
+// countries, one client of each half asks, in either order.
+//
+//   - split <= 24 (IPv4) / <= 56 (IPv6): the clients are in different /24 resp.
+//     /56 blocks, the cache (ipToCacheKey) must keep them apart and each upstream
+//     query must carry a subnet of the client's own country; a cache key coarser
+//     than the documented one is reported as geoip-location-cache-crossed-blocks;
+//
+//   - longer splits: the two clients share a block, the second is located where
+//     the first is (known finding geoip-data-cache-coarser-than-database).
+func geoCacheFinding(r *hlib.Result, rng *rand.Rand, _ int) {
 	dir, err := os.MkdirTemp("", "c05geo")
 	hlib.Must(err)
 	defer func() { _ = os.RemoveAll(dir) }()
-	for i := 0; i < n; i++ {
-		// The block and where it is split.
-		split := 25 + rng.IntN(7)
+	type cse struct {
+		v6    bool
+		split int
+	}
+	var cases []cse
+	for split := 9; split <= 31; split++ {
+		cases = append(cases, cse{false, split})
+	}
+	for split := 17; split <= 63; split++ {
+		cases = append(cases, cse{true, split})
+	}
+	for i, c := range cases {
+		// The network and where it is split.
+		split, v6 := c.split, c.v6
 		var lo, hi, subA, subB netip.Prefix
-		v6 := i%2 == 1
+		block := 24
 		if !v6 {
-			base := netip.AddrFrom4([4]byte{12, byte(rng.IntN(200)), byte(rng.IntN(200)), 0})
-			lo = netip.PrefixFrom(base, split)
-			up := base.As4()
-			up[3] = 1 << (32 - split)
-			hi = netip.PrefixFrom(netip.AddrFrom4(up), split)
+			b := [4]byte{12, byte(rng.IntN(256)), byte(rng.IntN(256)), byte(rng.IntN(256))}
+			base, _ := netip.AddrFrom4(b).Prefix(split - 1)
+			lo = netip.PrefixFrom(base.Addr(), split)
+			hi = netip.PrefixFrom(setBit(base.Addr(), split-1), split)
 			subA, subB = netip.MustParsePrefix("13.0.0.0/16"), netip.MustParsePrefix("14.0.0.0/20")
 		} else {
-			split = 57 + rng.IntN(7)
-			b := [16]byte{0x2a, 0x0c, byte(rng.IntN(200))}
-			lo = netip.PrefixFrom(netip.AddrFrom16(b), split)
-			b[7] = 1 << (64 - split)
-			hi = netip.PrefixFrom(netip.AddrFrom16(b), split)
+			block = 56
+			b := [16]byte{0x2a, 0x0c}
+			for j := 2; j < 8; j++ {
+				b[j] = byte(rng.IntN(256))
+			}
+			base, _ := netip.AddrFrom16(b).Prefix(split - 1)
+			lo = netip.PrefixFrom(base.Addr(), split)
+			hi = netip.PrefixFrom(setBit(base.Addr(), split-1), split)
 			subA, subB = netip.MustParsePrefix("2a0d::/32"), netip.MustParsePrefix("2a0e::/40")
 		}
+		sameBlock := split > block
 		db := &geoDB{Top: map[geoip.Country]geoip.ASN{}, CtryNets: []gdbCtryNet{
 			{P: lo, Ctry: geoip.CountryAD}, {P: hi, Ctry: geoip.CountryUS},
 			{P: subA, Ctry: geoip.CountryAD}, {P: subB, Ctry: geoip.CountryUS},
@@ -588,7 +618,29 @@ func geoCacheFinding(r *hlib.Result, rng *rand.Rand, n int) {
 			return l
 		}
 		g.liveSubnet = f.SubnetByLocation
-		first, second := lo.Addr().Next(), hi.Addr().Next()
+		// Addresses anywhere in the two halves: the first, the last, a random one.
+		inside := func(p netip.Prefix) netip.Addr {
+			a := p.Addr()
+			switch rng.IntN(3) {
+			case 0:
+				return a.Next()
+			case 1:
+				for j := p.Bits(); j < a.BitLen(); j++ {
+					a = setBit(a, j)
+				}
+
+				return a
+			default:
+				for j := p.Bits(); j < a.BitLen(); j++ {
+					if rng.IntN(2) == 0 {
+						a = setBit(a, j)
+					}
+				}
+
+				return a
+			}
+		}
+		first, second := inside(lo), inside(hi)
 		if rng.IntN(2) == 0 {
 			first, second = second, first
 		}
@@ -597,33 +649,48 @@ func geoCacheFinding(r *hlib.Result, rng *rand.Rand, n int) {
 			{Remote: first, QType: dns.TypeA, QClass: dns.ClassINET, Up: up},
 			{Remote: second, Host: 1, QType: dns.TypeA, QClass: dns.ClassINET, Up: up},
 		}}
+		if i%3 == 0 {
+			// The second address arrives as the address of an ECS option.
+			bits := second.BitLen()
+			ep, _ := second.Prefix(bits)
+			sc.Reqs[1].Remote = first
+			sc.Reqs[1].RRs = []optRR{{Opts: []optDesc{ecsOptOf(ep, true, 0)}}}
+		}
 		os := runScenario(sc, 100, 100)
 		fam := netutil.AddrFamilyIPv4
 		if v6 {
 			fam = netutil.AddrFamilyIPv6
 		}
+		who := []netip.Addr{first, second}
 		for j := range os {
 			if os[j].UpReq == nil {
 				continue
 			}
-			_, ctry, _, _ := db.lookup(sc.Reqs[j].Remote)
+			_, ctry, _, _ := db.lookup(who[j])
 			for _, e := range ecsOnly(optRRsOf(os[j].UpReq)) {
 				p, _ := e.asPrefix()
 				if ok, _ := db.assignedOracle(p, fam, nil, []geoip.Country{ctry}); ok {
 					continue
 				}
-				_, other, _, _ := db.lookup(sc.Reqs[1-j].Remote)
+				_, other, _, _ := db.lookup(who[1-j])
 				sig := "upstream-ecs-not-assigned-by-database"
 				if ok, _ := db.assignedOracle(p, fam, nil, []geoip.Country{other}); ok && j == 1 {
-					sig = "geoip-data-cache-coarser-than-database"
+					sig = "geoip-location-cache-crossed-blocks"
+					if sameBlock {
+						sig = "geoip-data-cache-coarser-than-database"
+					}
 				}
-				r.Violate(sig, fmt.Sprintf("client %s is in %v, which the database puts into country %q, but after a query from %s (country %q, same /%d block) "+
-					"its upstream query carries %v, the subnet of %q", sc.Reqs[j].Remote, map[bool]netip.Prefix{true: lo, false: hi}[lo.Contains(sc.Reqs[j].Remote)],
-					ctry, sc.Reqs[1-j].Remote, other, map[bool]int{false: 24, true: 56}[v6], p, other),
+				r.Violate(sig, fmt.Sprintf("address %s is in %v, which the database puts into country %q, but after a query from %s (country %q; the two share a /%d but not a /%d; documented cache block /%d) "+
+					"its upstream query carries %v, the subnet of %q", who[j], map[bool]netip.Prefix{true: lo, false: hi}[lo.Contains(who[j])],
+					ctry, who[1-j], other, split-1, split, block, p, other),
 					map[string]any{"databases": db, "requests": sc.Reqs, "observed": observedLines(os)})
 			}
 		}
-		r.Case(fmt.Sprintf("geocache %v %v %v", lo, hi, first), true)
-		r.Count("geodb.cache_block_split_cases")
+		r.Case(fmt.Sprintf("geocache %v %v %v %v", lo, hi, first, second), true)
+		if sameBlock {
+			r.Count("geodb.cache_block_split_cases")
+		} else {
+			r.Count("geodb.cache_other_block_cases")
+		}
 	}
 }
